@@ -590,6 +590,8 @@ func c44Digits(mask int, digit byte) string {
 	return string(b)
 }
 
+// c44Enumerate emits every case of the tier exactly once. The thorough tier starts
+// with the complete quick enumeration (so a deadline cap can only cut the deepening).
 func c44Enumerate(thorough bool, emit func(c44E2E)) {
 	seen := map[c44E2E]bool{}
 	out := func(c c44E2E) {
@@ -599,188 +601,26 @@ func c44Enumerate(thorough bool, emit func(c44E2E)) {
 		seen[c] = true
 		emit(c)
 	}
-	nets := []int{0, 1, 2, 4}
-	nc := len(c44Contracts)
-	modes := []int{0, 1, 2}
+	c44EnumQuick(out)
 	if thorough {
-		modes = []int{0, 1, 2, 3}
+		c44EnumDeep(out)
 	}
+}
 
-	// A. `start` shape, populated build, mandatory settings in a TOML file:
-	//    network x peers source x electrum source x contract address sources
-	for _, nf := range nets {
-		for _, p := range modes {
-			for _, el := range modes {
-				c := c44E2E{Shape: "start", NetFlags: nf, Build: 1, Format: "toml", Peers: p, Electrum: el}
-				if !thorough {
-					// peers/electrum sources mixed freely; contracts: none, each single
-					// one, all of them - from the file and from flags
-					for _, d := range []byte{'1', '2'} {
-						c.Contracts = c44Digits(0, d)
-						out(c)
-						c.Contracts = c44Digits(1<<uint(nc)-1, d)
-						out(c)
-						for i := 0; i < nc; i++ {
-							c.Contracts = c44Digits(1<<uint(i), d)
-							out(c)
-						}
-					}
-					// every subset of the ten values, the whole subset from one source
-					if p == el || p == 0 || el == 0 {
-						for mask := 0; mask < 1<<uint(nc); mask++ {
-							for _, d := range []byte{'1', '2'} {
-								if (p != 0 && p != int(d-'0')) || (el != 0 && el != int(d-'0')) {
-									continue
-								}
-								c.Contracts = c44Digits(mask, d)
-								out(c)
-							}
-						}
-					}
-					continue
-				}
-				// peers/Electrum in any of the four source modes with contracts: none,
-				// all, each single one - from the file, from flags, from both
-				for _, d := range []byte{'1', '2', '3'} {
-					c.Contracts = c44Digits(0, d)
-					out(c)
-					c.Contracts = c44Digits(1<<uint(nc)-1, d)
-					out(c)
-					for i := 0; i < nc; i++ {
-						c.Contracts = c44Digits(1<<uint(i), d)
-						out(c)
-					}
-				}
-				// every assignment unset/file/flag per contract (3^8)
-				t := make([]byte, nc)
-				for k := 0; p != 3 && el != 3; k++ {
-					x := k
-					for i := 0; i < nc; i++ {
-						t[i] = byte('0' + x%3)
-						x /= 3
-					}
-					if x != 0 {
-						break
-					}
-					c.Contracts = string(t)
-					out(c)
-				}
-				// every subset set in both places
-				if (p == 0 || p == 3) && (el == 0 || el == 3) {
-					for mask := 1; mask < 1<<uint(nc); mask++ {
-						c.Contracts = c44Digits(mask, '3')
-						out(c)
-					}
-				}
-			}
-		}
-	}
+var c44NetSel = []int{0, 1, 2, 4}
 
-	// B. other command shapes / flag position / flags-only base / tree build
-	for _, shape := range []string{"start", "maintainer", "flat"} {
-		for base := 0; base <= 1; base++ {
-			for build := 0; build <= 1; build++ {
-				for pos := 0; pos <= 1; pos++ {
-					for _, nf := range nets {
-						c := c44E2E{Shape: shape, NetFlags: nf, NetPos: pos, Build: build, Base: base, Format: "toml"}
-						if !thorough {
-							// nothing set, every single value from each source, everything from each source
-							c.Contracts = c44Digits(0, '0')
-							out(c)
-							for src := 1; src <= 2; src++ {
-								d := byte('0' + src)
-								s := c
-								s.Peers = src
-								out(s)
-								s = c
-								s.Electrum = src
-								out(s)
-								for i := 0; i < nc; i++ {
-									s = c
-									s.Contracts = c44Digits(1<<uint(i), d)
-									out(s)
-								}
-								s = c
-								s.Electrum, s.Contracts = src, c44Digits(1<<uint(nc)-1, d)
-								if shape == "maintainer" {
-									s.Peers = 1
-									s.Contracts = c44Digits(1<<uint(nc)-1, '1')
-								} else {
-									s.Peers = src
-								}
-								out(s)
-							}
-							continue
-						}
-						// every subset of the ten values, the whole subset from one source
-						for _, d := range []byte{'1', '2'} {
-							src := int(d - '0')
-							for _, p := range []int{0, src} {
-								for _, el := range []int{0, src} {
-									for mask := 0; mask < 1<<uint(nc); mask++ {
-										s := c
-										s.Peers, s.Electrum, s.Contracts = p, el, c44Digits(mask, d)
-										out(s)
-									}
-								}
-							}
-						}
-						// peers/Electrum sources mixed freely with none / all contracts
-						for p := 0; p <= 2; p++ {
-							for el := 0; el <= 2; el++ {
-								for _, d := range []byte{'1', '2'} {
-									s := c
-									s.Peers, s.Electrum, s.Contracts = p, el, c44Digits(0, d)
-									out(s)
-									s.Contracts = c44Digits(1<<uint(nc)-1, d)
-									out(s)
-								}
-							}
-						}
-					}
-				}
-			}
-		}
-	}
+func c44EnumQuick(out func(c44E2E)) {
+	nets := c44NetSel
+	nc := len(c44Contracts)
+	all := 1<<uint(nc) - 1
 
 	// C. the config file also carries an ethereum/bitcoin network entry
-	for _, shape := range []string{"start", "flat"} {
-		if shape == "flat" && !thorough {
-			continue
-		}
-		for _, nf := range nets {
-			for key := 1; key <= 6; key++ {
-				for p := 0; p <= 1; p++ {
-					for el := 0; el <= 1; el++ {
-						out(c44E2E{Shape: shape, NetFlags: nf, Build: 1, Format: "toml", Peers: p, Electrum: el,
-							Contracts: c44Digits(0, '0'), NetKey: key})
-					}
-				}
-			}
-		}
-	}
-
-	// D. YAML / JSON config files
-	for _, f := range []string{"yaml", "json"} {
-		for _, nf := range nets {
+	for _, nf := range nets {
+		for key := 1; key <= 6; key++ {
 			for p := 0; p <= 1; p++ {
 				for el := 0; el <= 1; el++ {
-					c := c44E2E{Shape: "start", NetFlags: nf, Build: 1, Format: f, Peers: p, Electrum: el}
-					if thorough {
-						for mask := 0; mask < 1<<uint(nc); mask++ {
-							c.Contracts = c44Digits(mask, '1')
-							out(c)
-						}
-						continue
-					}
-					c.Contracts = c44Digits(0, '0')
-					out(c)
-					c.Contracts = c44Digits(1<<uint(nc)-1, '1')
-					out(c)
-					for i := 0; i < nc; i++ {
-						c.Contracts = c44Digits(1<<uint(i), '1')
-						out(c)
-					}
+					out(c44E2E{Shape: "start", NetFlags: nf, Build: 1, Format: "toml", Peers: p, Electrum: el,
+						Contracts: c44Digits(0, '0'), NetKey: key})
 				}
 			}
 		}
@@ -791,6 +631,207 @@ func c44Enumerate(thorough bool, emit func(c44E2E)) {
 		for _, shape := range []string{"start", "flat"} {
 			out(c44E2E{Shape: shape, NetFlags: nf, Build: 1, Format: "toml", Contracts: c44Digits(0, '0')})
 			out(c44E2E{Shape: shape, NetFlags: nf, Build: 1, Format: "toml", Peers: 1, Electrum: 2, Contracts: c44Digits(5, '1')})
+		}
+	}
+
+	// B. every command shape / flag position / flags-only base / build: nothing set,
+	//    every single value from each source, everything from each source
+	for _, shape := range []string{"start", "maintainer", "flat"} {
+		for base := 0; base <= 1; base++ {
+			for build := 0; build <= 1; build++ {
+				for pos := 0; pos <= 1; pos++ {
+					for _, nf := range nets {
+						c := c44E2E{Shape: shape, NetFlags: nf, NetPos: pos, Build: build, Base: base, Format: "toml"}
+						c.Contracts = c44Digits(0, '0')
+						out(c)
+						for src := 1; src <= 2; src++ {
+							d := byte('0' + src)
+							s := c
+							s.Peers = src
+							out(s)
+							s = c
+							s.Electrum = src
+							out(s)
+							for i := 0; i < nc; i++ {
+								s = c
+								s.Contracts = c44Digits(1<<uint(i), d)
+								out(s)
+							}
+							s = c
+							s.Electrum, s.Contracts = src, c44Digits(all, d)
+							if shape == "maintainer" {
+								s.Peers = 1
+								s.Contracts = c44Digits(all, '1')
+							} else {
+								s.Peers = src
+							}
+							out(s)
+						}
+					}
+				}
+			}
+		}
+	}
+
+	// D. YAML / JSON config files: nothing, each single contract, all contracts
+	for _, f := range []string{"yaml", "json"} {
+		for _, nf := range nets {
+			for p := 0; p <= 1; p++ {
+				for el := 0; el <= 1; el++ {
+					c := c44E2E{Shape: "start", NetFlags: nf, Build: 1, Format: f, Peers: p, Electrum: el}
+					c.Contracts = c44Digits(0, '0')
+					out(c)
+					c.Contracts = c44Digits(all, '1')
+					out(c)
+					for i := 0; i < nc; i++ {
+						c.Contracts = c44Digits(1<<uint(i), '1')
+						out(c)
+					}
+				}
+			}
+		}
+	}
+
+	// A. `start` shape, populated build, mandatory settings in a TOML file
+	for _, nf := range nets {
+		for p := 0; p <= 2; p++ {
+			for el := 0; el <= 2; el++ {
+				c := c44E2E{Shape: "start", NetFlags: nf, Build: 1, Format: "toml", Peers: p, Electrum: el}
+				// peers/Electrum sources mixed freely; contracts: none, each single
+				// one, all of them - from the file and from flags
+				for _, d := range []byte{'1', '2'} {
+					c.Contracts = c44Digits(0, d)
+					out(c)
+					c.Contracts = c44Digits(all, d)
+					out(c)
+					for i := 0; i < nc; i++ {
+						c.Contracts = c44Digits(1<<uint(i), d)
+						out(c)
+					}
+				}
+				// every subset of the ten values, the whole subset from one source
+				for _, d := range []byte{'1', '2'} {
+					src := int(d - '0')
+					if (p != 0 && p != src) || (el != 0 && el != src) {
+						continue
+					}
+					for mask := 0; mask <= all; mask++ {
+						c.Contracts = c44Digits(mask, d)
+						out(c)
+					}
+				}
+			}
+		}
+	}
+}
+
+func c44EnumDeep(out func(c44E2E)) {
+	nets := c44NetSel
+	nc := len(c44Contracts)
+	all := 1<<uint(nc) - 1
+
+	// C'. network entries in the file for the flat shape as well
+	for _, nf := range nets {
+		for key := 1; key <= 6; key++ {
+			for p := 0; p <= 1; p++ {
+				for el := 0; el <= 1; el++ {
+					out(c44E2E{Shape: "flat", NetFlags: nf, Build: 1, Format: "toml", Peers: p, Electrum: el,
+						Contracts: c44Digits(0, '0'), NetKey: key})
+				}
+			}
+		}
+	}
+
+	// A'. peers/Electrum in all four source modes with contracts none / each single /
+	//     all, from the file, from flags, from both
+	for _, nf := range nets {
+		for p := 0; p <= 3; p++ {
+			for el := 0; el <= 3; el++ {
+				c := c44E2E{Shape: "start", NetFlags: nf, Build: 1, Format: "toml", Peers: p, Electrum: el}
+				for _, d := range []byte{'1', '2', '3'} {
+					c.Contracts = c44Digits(0, d)
+					out(c)
+					c.Contracts = c44Digits(all, d)
+					out(c)
+					for i := 0; i < nc; i++ {
+						c.Contracts = c44Digits(1<<uint(i), d)
+						out(c)
+					}
+				}
+				// every subset of contracts set in both places
+				if (p == 0 || p == 3) && (el == 0 || el == 3) {
+					for mask := 1; mask <= all; mask++ {
+						c.Contracts = c44Digits(mask, '3')
+						out(c)
+					}
+				}
+			}
+		}
+	}
+
+	// D'. every file-sourced subset in YAML and JSON
+	for _, f := range []string{"yaml", "json"} {
+		for _, nf := range nets {
+			for p := 0; p <= 1; p++ {
+				for el := 0; el <= 1; el++ {
+					c := c44E2E{Shape: "start", NetFlags: nf, Build: 1, Format: f, Peers: p, Electrum: el}
+					for mask := 0; mask <= all; mask++ {
+						c.Contracts = c44Digits(mask, '1')
+						out(c)
+					}
+				}
+			}
+		}
+	}
+
+	// B'. every uniform-source subset of contracts, with peers/Electrum unset or from the
+	//     same source, for every shape / base / build / flag position
+	for _, shape := range []string{"flat", "start", "maintainer"} {
+		for base := 0; base <= 1; base++ {
+			for build := 0; build <= 1; build++ {
+				for pos := 0; pos <= 1; pos++ {
+					for _, nf := range nets {
+						c := c44E2E{Shape: shape, NetFlags: nf, NetPos: pos, Build: build, Base: base, Format: "toml"}
+						for _, d := range []byte{'1', '2'} {
+							src := int(d - '0')
+							for _, pe := range [][2]int{{0, 0}, {src, src}, {0, src}, {src, 0}} {
+								for mask := 0; mask <= all; mask++ {
+									s := c
+									s.Peers, s.Electrum = pe[0], pe[1]
+									s.Contracts = c44Digits(mask, d)
+									if shape == "maintainer" {
+										// no contract flags there (peers from a flag are
+										// filtered by c44Valid): contracts from the file
+										s.Contracts = c44Digits(mask, '1')
+									}
+									out(s)
+								}
+							}
+						}
+					}
+				}
+			}
+		}
+	}
+
+	// A''. every assignment unset/file/flag per contract (3^8) x peers/Electrum
+	//      {both unset, file+flag, flag+file}
+	for _, nf := range nets {
+		for _, pe := range [][2]int{{0, 0}, {1, 2}, {2, 1}} {
+			c := c44E2E{Shape: "start", NetFlags: nf, Build: 1, Format: "toml", Peers: pe[0], Electrum: pe[1]}
+			t := make([]byte, nc)
+			for k := 0; ; k++ {
+				x := k
+				for i := 0; i < nc; i++ {
+					t[i] = byte('0' + x%3)
+					x /= 3
+				}
+				if x != 0 {
+					break
+				}
+				c.Contracts = string(t)
+				out(c)
+			}
 		}
 	}
 }
